@@ -201,6 +201,11 @@ func c15Bases(c *vlib.Ctx) []CfgLit {
 			}
 		}
 	}
+	// long names in mixed case (case conversion has to reach every byte)
+	longName := "X-" + strings.Repeat("Ab", 60)
+	out = append(out,
+		CfgLit{Origins: []string{"https://a.b"}, RequestHeaders: []string{longName, "X-B"}, ResponseHeaders: []string{longName + "-R"}},
+		CfgLit{Origins: []string{"https://a.b"}, Credentialed: true, RequestHeaders: []string{"X-B", longName}, Methods: []string{"PUT"}})
 	// long lists (a set implementation may change its representation with size): 9, 17 and 33 entries in one list,
 	// the other lists short
 	for _, n := range []int{9, 17, 33} {
